@@ -80,8 +80,12 @@ def sem_leg(o, name, gen_args, n, seed, shards=None, spec="TV_Sem.tla", cfg="TV_
 
     def gen(i):
         f = os.path.join(wd, f"r{i}.ndjson")
-        core.run_nlh([gen_cmd] + gen_args + ["--seed", seed * 1009 + i, "--n", per,
-                                           "--first-id", i * 1000000 + 1, "--out", f])
+        if gen_cmd.endswith("-sharded"):
+            core.run_nlh([gen_cmd[:-8]] + gen_args + ["--seed", seed, "--shards", shards, "--shard", i,
+                                                      "--first-id", i * 1000000 + 1, "--out", f])
+        else:
+            core.run_nlh([gen_cmd] + gen_args + ["--seed", seed * 1009 + i, "--n", per,
+                                               "--first-id", i * 1000000 + 1, "--out", f])
         return f
     files = core.parallel(gen, list(range(shards)))
     results = run_tv_shards(files, spec, cfg, wd, timeout=timeout, extra_env=extra_env)
@@ -286,8 +290,104 @@ def check_C02(tier, seed):
     return o.finish()
 
 
+# ---------------------------------------------------------------------------
+# C06: operators, exact over the whole range
+# ---------------------------------------------------------------------------
+def corrupt_big(rec, k):
+    r = copy.deepcopy(rec)
+    ops = ["+", "-", "*", "<", "==", ">=", "!="]
+    op = ops[k % len(ops)]
+    f = k % 3
+    o = r["obs"][op][f]
+    if o["c"] == "I":
+        o["mag"] = ([o["mag"][0] ^ 1] + o["mag"][1:]) if o["mag"] else [1]
+    elif o["c"] == "B":
+        o["v"] = not o["v"]
+    elif o["c"] == "E":
+        r["obs"][op][f] = {"c": "I", "neg": False, "mag": [1]}
+    else:
+        return None
+    r["_corruption"] = f"{op}/{f}"
+    return r
+
+
+def big_leg(o, name, lattice, nrandom, seed, timeout=2400):
+    t0 = time.time()
+    shards = core.NCPU
+    wd = core.workdir(f"{o.prop}_{name}")
+
+    def gen(i):
+        f = os.path.join(wd, f"big{i}.ndjson")
+        core.run_nlh(["gen-big", "--lattice", lattice, "--shards", shards, "--shard", i, "--seed", seed,
+                      "--random", nrandom // shards, "--first-id", i * 10000000 + 1, "--out", f])
+        return f
+    files = core.parallel(gen, list(range(shards)))
+    results = run_tv_shards(files, "TV_Big.tla", "TV_Big.cfg", wd, timeout=timeout)
+    nrec = 0
+    counts = {}
+    agreeing = []
+    for f, r in zip(files, results):
+        o.add_tlc(r)
+        recs = {x["id"]: x for x in core.read_ndjson(f)}
+        nrec += len(recs)
+        if len(r.verdicts) != len(recs):
+            raise ToolError(f"{name}: {len(r.verdicts)} verdicts for {len(recs)} records")
+        for v in r.verdicts:
+            key = v["class"] + ":" + v["rule"]
+            counts[key] = counts.get(key, 0) + 1
+            rec = recs[v["id"]]
+            o.traces += 1
+            if v["class"] == "mismatch":
+                for (op, form) in v["wrong"][:4]:
+                    ob = rec["obs"][op][form - 1]
+                    forms = ["literal op literal", "variable op literal (in function)", "literal op variable (in function)"]
+                    sig = {"leg": name, "rule": "operator", "op": op, "form": forms[form - 1],
+                           "a": rec["at"], "b": rec["bt"], "observed": ob,
+                           "class": {"E": "Err", "X": "Panic"}.get(ob.get("c"), "Value"),
+                           "msg": ob.get("what"), "loc": ob.get("loc")}
+                    o.violation(sig, {"a": rec["at"], "b": rec["bt"], "op": op, "form": forms[form - 1],
+                                      "observed": ob, "record_file": f, "id": v["id"],
+                                      "spec_module": "TV_Big.tla", "cfg": "TV_Big.cfg"})
+            else:
+                if len(agreeing) < 200:
+                    agreeing.append(rec)
+    for r in agreeing[:3]:
+        o.samples.append({"leg": name, "a": r["at"], "b": r["bt"], "observed_mul": r["obs"]["*"], "observed_lt": r["obs"]["<"]})
+    tried = rejected = 0
+    if agreeing:
+        rng = random.Random(seed)
+        bad = [c for c in (corrupt_big(r, k) for k, r in enumerate(rng.sample(agreeing, min(14, len(agreeing))))) if c]
+        bf = os.path.join(wd, "corrupt.ndjson")
+        core.write_ndjson(bf, bad)
+        rr = core.tlc_or_die("TV_Big.tla", "TV_Big.cfg", env={"RECS": bf}, workdir_=wd)
+        tried = len(bad)
+        rejected = sum(1 for v in rr.verdicts if v["class"] == "mismatch")
+        if tried != rejected:
+            raise ToolError(f"{name}: sensitivity self-test failed ({rejected}/{tried} corrupted records rejected)")
+    o.legs.append({"leg": name, "pairs": nrec, "evaluations": nrec * 33, "verdicts": counts,
+                   "sensitivity_tried": tried, "sensitivity_rejected": rejected,
+                   "wall_s": round(time.time() - t0, 1)})
+
+
+def check_C06(tier, seed):
+    o = Outcome("C06", tier, seed, "model_checking")
+    o.assumptions = [
+        "integer results are compared with exact limb arithmetic (spec/NlBig.tla); quotient and remainder are verified from the observed pair (a = q*b + r, |r| < |b|, sign r = sign a)",
+        "floats: comparisons and arithmetic are decided on exact dyadic operands; results that need rounding and non-finite values are DontKnow (U9) and skipped",
+        "the error kind for a zero divisor / overflow is not fixed by the documentation: any error kind is accepted (U8)",
+    ]
+    big_leg(o, "int-lattice", size(tier, "quick", "full"), size(tier, 3200, 200000), seed)
+    sem_leg(o, "ops-all-types", [], 16, seed, shards=16, gen_cmd="gen-ops-sharded", sens=10)
+    o.extra["exhaustive"] = True
+    o.extra["rule"] = ("integer pairs: complete cross product of the boundary lattice (0, +-1, +-2, +-7, +-2^k, +-(2^k+-1), range ends) "
+                       "x 11 operators x 3 syntactic forms, plus seeded random pairs; other types: every operator on every pair of "
+                       "exemplars of all seven types in the three forms")
+    return o.finish()
+
+
 CHECKS = {
     "C01": check_C01,
+    "C06": check_C06,
     "C02": check_C02,
 }
 
